@@ -277,6 +277,7 @@ class Program:
                     continue
                 if any(d.endswith(".setter") for d in decs):
                     fi.prop = "set"
+                    fi.qualname += ".setter"
                     ci.setters[fi.name] = fi
                     continue
                 if "classmethod" in decs:
